@@ -766,3 +766,414 @@ Proof.
   destruct (remove_conflict_ok U (st m) (fs sm) t Hwf HI Hok) as (s' & Hrc & HI').
   cbn [step]. rewrite Hrc. cbn. split; [done|]. split; [exact HI'|done].
 Qed.
+
+(** * Composition lemmas for [remove_unconf_with_descendants] (for the other proof files) *)
+Section compose.
+  Context (U : gmap N tx).
+  Local Notation rm := (remove_unconf_with_descendants U).
+
+  Lemma depends_on_dec (F : facts) (roots : list N) (c : N) :
+    depends_on U F roots c ∨ ¬ depends_on U F roots c.
+  Proof. rewrite depends_on_reach. apply reach_dec. Qed.
+
+  Lemma depends_on_mono (F F' : facts) (roots roots' : list N) (c : N) :
+    f_unconf F ⊆ f_unconf F' → (∀ r, r ∈ roots → r ∈ roots') →
+    depends_on U F roots c → depends_on U F' roots' c.
+  Proof. rewrite !depends_on_reach. apply reach_mono. Qed.
+
+  Lemma depends_on_trans (F : facts) (roots roots' : list N) (c : N) :
+    (∀ r, r ∈ roots' → depends_on U F roots r) → depends_on U F roots' c → depends_on U F roots c.
+  Proof.
+    intros Hr. rewrite !depends_on_reach. apply reach_trans.
+    intros r Hr'. rewrite <- depends_on_reach. by apply Hr.
+  Qed.
+
+  Lemma depends_on_nil (F : facts) (c : N) : ¬ depends_on U F [] c.
+  Proof. rewrite depends_on_reach. apply reach_nil. Qed.
+
+  Lemma depends_on_app (F : facts) (r1 r2 : list N) (c : N) :
+    depends_on U F (r1 ++ r2) c ↔ depends_on U F r1 c ∨ depends_on U F r2 c.
+  Proof.
+    split.
+    - induction 1 as [r Hr|p c Hp IH Hc Hsp].
+      + apply elem_of_app in Hr as [Hr|Hr]; [left|right]; by apply dep_root.
+      + destruct IH as [IH|IH]; [left|right]; by eapply dep_step.
+    - intros [H|H]; (eapply depends_on_mono; [done| |exact H]); intros r Hr; apply elem_of_app; auto.
+  Qed.
+
+  Lemma depends_on_in (F : facts) (roots : list N) (c : N) :
+    depends_on U F roots c → c ∈ roots ∨ c ∈ f_unconf F.
+  Proof. destruct 1; [by left|by right]. Qed.
+
+  Lemma rm_unconf_subseteq (F : facts) (roots : list N) : f_unconf (rm F roots) ⊆ f_unconf F.
+  Proof. intros c Hc. by apply rm_unconf_elem in Hc as [? _]. Qed.
+
+  Lemma rm_roots_gone (F : facts) (roots : list N) (r : N) : r ∈ roots → r ∉ f_unconf (rm F roots).
+  Proof. intros Hr Hin. apply rm_unconf_elem in Hin as [_ Hn]. by apply Hn, dep_root. Qed.
+
+  (** the result only depends on which unconfirmed transactions are reachable *)
+  Lemma rm_ext_unconf (F : facts) (r1 r2 : list N) :
+    (∀ c, c ∈ f_unconf F → (depends_on U F r1 c ↔ depends_on U F r2 c)) → rm F r1 = rm F r2.
+  Proof.
+    intros H. apply facts_eq; [done| |done]. apply leibniz_equiv. intros c.
+    rewrite !rm_unconf_elem. split; intros [Hc Hn]; (split; [done|]); by rewrite (H c Hc) in *.
+  Qed.
+
+  Lemma rm_ext_dep (F : facts) (r1 r2 : list N) :
+    (∀ x, x ∈ r1 → depends_on U F r2 x) → (∀ x, x ∈ r2 → depends_on U F r1 x) → rm F r1 = rm F r2.
+  Proof.
+    intros H1 H2. apply rm_ext_unconf. intros c _. split; by apply depends_on_trans.
+  Qed.
+
+  Lemma rm_ext (F : facts) (r1 r2 : list N) : (∀ x, x ∈ r1 ↔ x ∈ r2) → rm F r1 = rm F r2.
+  Proof. intros H. apply rm_ext_dep; intros x Hx; apply dep_root; by apply H. Qed.
+
+  Lemma rm_nil (F : facts) : rm F [] = F.
+  Proof.
+    apply facts_eq; [done| |done]. apply leibniz_equiv. intros c. rewrite rm_unconf_elem.
+    pose proof (depends_on_nil F c). tauto.
+  Qed.
+
+  Lemma depends_on_rm (F : facts) (r1 r2 : list N) (c : N) :
+    depends_on U (rm F r1) r2 c → depends_on U F r2 c.
+  Proof. apply depends_on_mono; [apply rm_unconf_subseteq|done]. Qed.
+
+  Lemma depends_on_rm_split (F : facts) (r1 r2 : list N) (c : N) :
+    depends_on U F (r1 ++ r2) c → depends_on U F r1 c ∨ depends_on U (rm F r1) r2 c.
+  Proof.
+    induction 1 as [r Hr|p c Hp IH Hc Hsp].
+    - apply elem_of_app in Hr as [Hr|Hr]; [left|right]; by apply dep_root.
+    - destruct IH as [IH|IH]; [left; by eapply dep_step|].
+      destruct (depends_on_dec F r1 c) as [Hd|Hd]; [by left|]. right.
+      eapply dep_step; [exact IH| |done]. by apply rm_unconf_elem.
+  Qed.
+
+  (** removing [r1] and then [r2] = removing [r1 ++ r2] *)
+  Lemma rm_rm (F : facts) (r1 r2 : list N) : rm (rm F r1) r2 = rm F (r1 ++ r2).
+  Proof.
+    apply facts_eq; [done| |done]. apply leibniz_equiv. intros c.
+    rewrite !rm_unconf_elem. split.
+    - intros [[Hc Hn1] Hn2]. split; [done|]. intros Hd.
+      by destruct (depends_on_rm_split F r1 r2 c Hd).
+    - intros [Hc Hn]. split; [split; [done|]|].
+      + intros Hd. apply Hn, depends_on_app. by left.
+      + intros Hd. apply Hn, depends_on_app. right. by eapply depends_on_rm.
+  Qed.
+
+  Lemma rm_idemp (F : facts) (r : list N) : rm (rm F r) r = rm F r.
+  Proof. rewrite rm_rm. apply rm_ext. intros x. rewrite elem_of_app. tauto. Qed.
+
+  Lemma rm_absorb (F : facts) (r1 r2 : list N) :
+    (∀ b, b ∈ r2 → depends_on U F r1 b) → rm F (r1 ++ r2) = rm F r1.
+  Proof.
+    intros H. apply rm_ext_dep.
+    - intros x Hx. apply elem_of_app in Hx as [Hx|Hx]; [by apply dep_root|by apply H].
+    - intros x Hx. apply dep_root, elem_of_app. by left.
+  Qed.
+
+  Lemma rm_comm (F : facts) (r1 r2 : list N) : rm (rm F r1) r2 = rm (rm F r2) r1.
+  Proof. rewrite !rm_rm. apply rm_ext. intros x. rewrite !elem_of_app. tauto. Qed.
+
+  Lemma rm_two (F : facts) (a b : N) : rm (rm F [a]) [b] = rm F [a; b].
+  Proof. by rewrite rm_rm. Qed.
+
+  (** a root that is neither unconfirmed nor spent by an unconfirmed tx is irrelevant;
+      more generally roots may be dropped when nothing unconfirmed depends on them *)
+  Lemma rm_drop_roots (F : facts) (r1 r2 : list N) :
+    (∀ c, c ∈ f_unconf F → depends_on U F r2 c → depends_on U F r1 c) → rm F (r1 ++ r2) = rm F r1.
+  Proof.
+    intros H. apply rm_ext_unconf. intros c Hc. rewrite depends_on_app. split; [|by left].
+    intros [Hd|Hd]; [done|by apply H].
+  Qed.
+End compose.
+
+(** * Loop lemmas at the level of the mempool buckets ([PInv]) *)
+Section pinv_compose.
+  Context (U : gmap N tx) (Hwf : wf_universe U = true).
+  Local Notation rm := (remove_unconf_with_descendants U).
+
+  Lemma A_in_U_rm (F : facts) (roots : list N) :
+    A_in_U U (f_unconf F) → A_in_U U (f_unconf (rm F roots)).
+  Proof. intros H t Ht. apply H. by apply (rm_unconf_subseteq U F roots). Qed.
+
+  Lemma A_in_U_of_Inv (s : store) (F : facts) : Inv U s F → A_in_U U (f_unconf F).
+  Proof. intros HI x Hx. apply (fw_in_universe U F (inv_wf U s F HI)). by right. Qed.
+
+  (** [remove_conflict] needs only the three mempool buckets *)
+  Lemma remove_conflict_PInv (s : store) (F : facts) (C : gset (N * N)) (t : N) :
+    A_in_U U (f_unconf F) → PInv U s (f_unconf F) C → t ∈ f_unconf F →
+    ∃ s', remove_conflict U (fuel_of U) t s = Some s' ∧
+          PInv U s' (f_unconf (rm F [t])) C ∧ same_rest s s'.
+  Proof.
+    intros HAU HP Ht.
+    destruct (rc_spec_all U Hwf (fuel_of U) t s (f_unconf F) C) as (s' & A' & Hrc & HP' & Hsr & HA').
+    - unfold fuel_of. pose proof (above_le_size U t). lia.
+    - done.
+    - done.
+    - done.
+    - exists s'. split; [done|]. split; [|done].
+      eapply PInv_ext; [|done|exact HP'].
+      intros c. by rewrite HA', rm_unconf_elem, depends_on_reach.
+  Qed.
+
+  Lemma Inv_rm (s s' : store) (F : facts) (roots : list N) :
+    Inv U s F → same_rest s s' → PInv U s' (f_unconf (rm F roots)) ∅ → Inv U s' (rm F roots).
+  Proof.
+    intros HI Hsr HP.
+    assert (Heq : rm F roots = with_unconf F (f_unconf (rm F roots))) by by apply facts_eq.
+    rewrite Heq. apply (Inv_with_unconf U s s'); [done|done| |done].
+    apply facts_wf_shrink; [exact (inv_wf U s F HI)|apply rm_unconf_subseteq].
+  Qed.
+
+  Lemma rm_cons_filter (F : facts) (a : N) (l : list N) :
+    rm (rm F [a]) (filter (λ x, x ∈ f_unconf (rm F [a])) l) =
+    rm F (a :: filter (λ x, x ∈ f_unconf F) l).
+  Proof.
+    rewrite rm_rm.
+    change (a :: filter (λ x, x ∈ f_unconf F) l) with ([a] ++ filter (λ x, x ∈ f_unconf F) l).
+    apply rm_ext_unconf.
+    intros c _. rewrite !(depends_on_app U F [a]).
+    split; (intros [Hd|Hd]; [by left|]).
+    - right. eapply depends_on_mono; [done| |exact Hd].
+      intros r Hr. apply elem_of_list_filter in Hr as [Hr Hrl].
+      apply elem_of_list_filter. split; [|done]. by apply (rm_unconf_subseteq U F [a]).
+    - induction Hd as [r Hr|p c' Hp IHp Hc' Hsp].
+      + apply elem_of_list_filter in Hr as [HrF Hrl].
+        destruct (depends_on_dec U F [a] r) as [Hdr|Hdr]; [by left|right].
+        apply dep_root. apply elem_of_list_filter. split; [|done]. by apply rm_unconf_elem.
+      + destruct IHp as [Hl|Hr']; [left|right]; by eapply dep_step.
+  Qed.
+
+  (** Removing a list of candidates one after the other, skipping those that
+      are not (or no longer) in [unmined]; [f] is any step function that
+      agrees with [rc_inner] while the alive set satisfies [P]. *)
+  Lemma remove_list_PInv_gen (f : option store → N → option store) (P : gset N → Prop) :
+    (∀ (s : store) (A : gset N) (C : gset (N * N)) (ds : N),
+        PInv U s A C → P A → f (Some s) ds = rc_inner U (fuel_of U) (Some s) ds) →
+    (∀ A A' : gset N, A' ⊆ A → P A → P A') →
+    ∀ (l : list N) (s : store) (F : facts) (C : gset (N * N)),
+      A_in_U U (f_unconf F) → P (f_unconf F) → PInv U s (f_unconf F) C →
+      ∃ s', foldl f (Some s) l = Some s' ∧
+            PInv U s' (f_unconf (rm F (filter (λ x, x ∈ f_unconf F) l))) C ∧ same_rest s s'.
+  Proof.
+    intros Hf HPmono. induction l as [|a l IH]; intros s F C HAU HPA HP.
+    - exists s. split; [done|]. split; [|apply same_rest_refl]. by rewrite filter_nil, rm_nil.
+    - cbn [foldl]. rewrite (Hf s _ C a HP HPA). unfold rc_inner. rewrite filter_cons.
+      destruct (unmined s !! a) as [[]|] eqn:Hm.
+      + assert (Ha : a ∈ f_unconf F). { apply (pi_unmined U s _ C HP). by rewrite Hm. }
+        destruct (remove_conflict_PInv s F C a HAU HP Ha) as (s1 & Hrc & HP1 & Hsr1).
+        rewrite Hrc.
+        destruct (IH s1 (rm F [a]) C) as (s' & Hfold & HP' & Hsr').
+        { by apply A_in_U_rm. }
+        { eapply HPmono; [|exact HPA]. apply rm_unconf_subseteq. }
+        { done. }
+        exists s'. split; [done|]. rewrite decide_True by done.
+        rewrite rm_cons_filter in HP'. split; [done|]. by eapply same_rest_trans.
+      + assert (Ha : a ∉ f_unconf F).
+        { intros Hin. apply (pi_unmined U s _ C HP) in Hin. rewrite Hm in Hin. by destruct Hin. }
+        rewrite decide_False by done. by apply IH.
+  Qed.
+
+  Lemma depends_on_roots_exists (F : facts) (R : list N) (c : N) :
+    depends_on U F R c ↔ ∃ u, u ∈ R ∧ depends_on U F [u] c.
+  Proof.
+    split.
+    - induction 1 as [r Hr|p c Hp IH Hc Hsp].
+      + exists r. split; [done|]. apply dep_root. by left.
+      + destruct IH as (u & Hu & Hd). exists u. split; [done|]. by eapply dep_step.
+    - intros (u & Hu & Hd). eapply depends_on_mono; [done| |exact Hd].
+      intros r Hr. by apply elem_of_list_singleton in Hr as ->.
+  Qed.
+
+  (** one more outpoint whose unconfirmed spenders [R] are removed first *)
+  Lemma spenders_char_step (F : facts) (R : list N) (op : N * N) (ops : list (N * N)) (c : N) :
+    (∀ u, u ∈ R ↔ unconf_spender U F op u) →
+    (c ∈ f_unconf (rm F R) ∧
+     ¬ ∃ op' u, op' ∈ ops ∧ unconf_spender U (rm F R) op' u ∧ depends_on U (rm F R) [u] c) ↔
+    (c ∈ f_unconf F ∧
+     ¬ ∃ op' u, op' ∈ op :: ops ∧ unconf_spender U F op' u ∧ depends_on U F [u] c).
+  Proof.
+    intros HR. rewrite rm_unconf_elem. split.
+    - intros [[Hc HnR] Hn]. split; [done|].
+      intros (op' & u & Hop' & Hu & Hd). apply elem_of_cons in Hop' as [->|Hop'].
+      + apply HnR. apply depends_on_roots_exists. exists u. split; [by apply HR|done].
+      + destruct (depends_on_dec U F R u) as [HdRu|HdRu].
+        * apply HnR. eapply depends_on_trans; [|exact Hd].
+          intros r Hr. by apply elem_of_list_singleton in Hr as ->.
+        * assert (Hd' : depends_on U F (R ++ [u]) c).
+          { apply depends_on_app. by right. }
+          apply depends_on_rm_split in Hd' as [Hd'|Hd']; [done|].
+          apply Hn. exists op', u. split; [done|]. split; [|done].
+          destruct Hu as [Hu Hin]. split; [|done]. by apply rm_unconf_elem.
+    - intros [Hc Hn]. split; [split; [done|]|].
+      + intros Hd. apply depends_on_roots_exists in Hd as (u & Hu & Hd).
+        apply Hn. exists op, u. split; [by left|]. split; [by apply HR|done].
+      + intros (op' & u & Hop' & [Hu Hin] & Hd). apply Hn. exists op', u.
+        split; [by right|]. split.
+        * split; [by apply (rm_unconf_subseteq U F R)|done].
+        * by eapply depends_on_rm.
+  Qed.
+
+  Definition spenders_step (f : option store → N → option store)
+      (acc : option store) (op : N * N) : option store :=
+    match acc with
+    | None => None
+    | Some s' => foldl f (Some s') (default [] (unmined_inputs s' !! op))
+    end.
+
+  (** For every outpoint of [ops]: remove every unconfirmed spender (list read
+      from [unmined_inputs] when the outpoint's turn comes) with its descendants. *)
+  Lemma remove_spenders_PInv_gen (f : option store → N → option store) (P : gset N → Prop) :
+    (∀ (s : store) (A : gset N) (C : gset (N * N)) (ds : N),
+        PInv U s A C → P A → f (Some s) ds = rc_inner U (fuel_of U) (Some s) ds) →
+    (∀ A A' : gset N, A' ⊆ A → P A → P A') →
+    ∀ (ops : list (N * N)) (s : store) (F : facts) (C : gset (N * N)),
+      A_in_U U (f_unconf F) → P (f_unconf F) → PInv U s (f_unconf F) C →
+      ∃ s' A', foldl (spenders_step f) (Some s) ops = Some s' ∧ PInv U s' A' C ∧ same_rest s s' ∧
+        ∀ c, c ∈ A' ↔
+             c ∈ f_unconf F ∧
+             ¬ ∃ op u, op ∈ ops ∧ unconf_spender U F op u ∧ depends_on U F [u] c.
+  Proof.
+    intros Hf HPmono. induction ops as [|op ops IH]; intros s F C HAU HPA HP.
+    - exists s, (f_unconf F). split; [done|]. split; [done|]. split; [apply same_rest_refl|].
+      intros c. split; [|by intros [? _]]. intros Hc. split; [done|].
+      intros (op & u & Hop & _). by apply elem_of_nil in Hop.
+    - cbn [foldl]. unfold spenders_step at 2.
+      set (l := default [] (unmined_inputs s !! op)).
+      destruct (remove_list_PInv_gen f P Hf HPmono l s F C HAU HPA HP) as (s1 & Hfold1 & HP1 & Hsr1).
+      rewrite Hfold1.
+      set (R := filter (λ x, x ∈ f_unconf F) l) in *.
+      assert (HR : ∀ u, u ∈ R ↔ unconf_spender U F op u).
+      { intros u. unfold R, l. rewrite elem_of_list_filter.
+        destruct (pi_mi U s _ C HP) as [Hs Hc].
+        destruct (unmined_inputs s !! op) as [l0|] eqn:Hl0; simpl.
+        - destruct (Hs op l0 Hl0) as (_ & _ & Hel). rewrite Hel. unfold unconf_spender. tauto.
+        - rewrite elem_of_nil. split; [tauto|]. intros [Hu Hin].
+          destruct (Hc op u) as [? Hsome]; [done|]. rewrite Hl0 in Hsome. done. }
+      destruct (IH s1 (rm F R) C) as (s' & A' & Hfold & HP' & Hsr' & HA').
+      { by apply A_in_U_rm. }
+      { eapply HPmono; [|exact HPA]. apply rm_unconf_subseteq. }
+      { done. }
+      exists s', A'. split; [done|]. split; [done|]. split; [by eapply same_rest_trans|].
+      intros c. rewrite HA'. by apply spenders_char_step.
+  Qed.
+
+  (** the alive set after [remove_spenders] as an [rm] *)
+  Lemma spenders_char_rm (F : facts) (ops : list (N * N)) (R : list N) (A' : gset N) :
+    (∀ u, u ∈ R ↔ ∃ op, op ∈ ops ∧ unconf_spender U F op u) →
+    (∀ c, c ∈ A' ↔ c ∈ f_unconf F ∧
+                   ¬ ∃ op u, op ∈ ops ∧ unconf_spender U F op u ∧ depends_on U F [u] c) →
+    A' = f_unconf (rm F R).
+  Proof.
+    intros HR HA'. apply leibniz_equiv. intros c.
+    rewrite HA', rm_unconf_elem, depends_on_roots_exists. split.
+    - intros [Hc Hn]. split; [done|]. intros (u & Hu & Hd). apply HR in Hu as (op & Hop & Hu).
+      apply Hn. by exists op, u.
+    - intros [Hc Hn]. split; [done|]. intros (op & u & Hop & Hu & Hd). apply Hn.
+      exists u. split; [|done]. apply HR. by exists op.
+  Qed.
+
+  (** ** Instances *)
+
+  Lemma remove_list_PInv (l : list N) (s : store) (F : facts) (C : gset (N * N)) :
+    A_in_U U (f_unconf F) → PInv U s (f_unconf F) C →
+    ∃ s', foldl (rc_inner U (fuel_of U)) (Some s) l = Some s' ∧
+          PInv U s' (f_unconf (rm F (filter (λ x, x ∈ f_unconf F) l))) C ∧ same_rest s s'.
+  Proof.
+    intros HAU HP.
+    by apply (remove_list_PInv_gen (rc_inner U (fuel_of U)) (λ _, True)).
+  Qed.
+
+  (** [rollback]'s clean-up after detached coinbases has this shape *)
+  Lemma remove_spenders_PInv (ops : list (N * N)) (s : store) (F : facts) (C : gset (N * N)) :
+    A_in_U U (f_unconf F) → PInv U s (f_unconf F) C →
+    ∃ s' A', foldl (spenders_step (rc_inner U (fuel_of U))) (Some s) ops = Some s' ∧
+      PInv U s' A' C ∧ same_rest s s' ∧
+      ∀ c, c ∈ A' ↔
+           c ∈ f_unconf F ∧
+           ¬ ∃ op u, op ∈ ops ∧ unconf_spender U F op u ∧ depends_on U F [u] c.
+  Proof.
+    intros HAU HP.
+    by apply (remove_spenders_PInv_gen (rc_inner U (fuel_of U)) (λ _, True)).
+  Qed.
+
+  (** [removeDoubleSpends] *)
+  Definition rds_inner (fuel : nat) (tid : N) (acc : option store) (ds : N) : option store :=
+    match acc with
+    | None => None
+    | Some s' =>
+      if bool_decide (ds = tid) then Some s'
+      else match unmined s' !! ds with
+           | None => Some s'
+           | Some _ => remove_conflict U fuel ds s'
+           end
+    end.
+
+  Lemma remove_double_spends_unfold (fuel : nat) (t : tx) (s : store) :
+    remove_double_spends U fuel t s =
+    foldl (spenders_step (rds_inner fuel (t_id t))) (Some s) (t_ins t).
+  Proof. reflexivity. Qed.
+
+  Lemma remove_double_spends_PInv (t : tx) (s : store) (F : facts) (C : gset (N * N)) :
+    A_in_U U (f_unconf F) → t_id t ∉ f_unconf F → PInv U s (f_unconf F) C →
+    ∃ s' A', remove_double_spends U (fuel_of U) t s = Some s' ∧ PInv U s' A' C ∧ same_rest s s' ∧
+      ∀ c, c ∈ A' ↔
+           c ∈ f_unconf F ∧
+           ¬ ∃ op u, op ∈ t_ins t ∧ unconf_spender U F op u ∧ depends_on U F [u] c.
+  Proof.
+    intros HAU Ht HP. rewrite remove_double_spends_unfold.
+    apply (remove_spenders_PInv_gen (rds_inner (fuel_of U) (t_id t)) (λ A, t_id t ∉ A)); try done.
+    - intros s0 A C0 ds HP0 HA. unfold rds_inner, rc_inner.
+      destruct (bool_decide (ds = t_id t)) eqn:Hds; [|done].
+      apply bool_decide_eq_true in Hds as ->.
+      destruct (unmined s0 !! t_id t) eqn:Hm; [|done].
+      exfalso. apply HA. apply (pi_unmined U s0 A C0 HP0). by rewrite Hm.
+    - intros A A' Hsub HA Hin. by apply HA, Hsub.
+  Qed.
+
+  (** ** [Inv]-level corollaries *)
+
+  Lemma remove_list_ok (l : list N) (s : store) (F : facts) :
+    Inv U s F →
+    ∃ s', foldl (rc_inner U (fuel_of U)) (Some s) l = Some s' ∧
+          Inv U s' (rm F (filter (λ x, x ∈ f_unconf F) l)).
+  Proof.
+    intros HI.
+    destruct (remove_list_PInv l s F ∅) as (s' & Hf & HP' & Hsr).
+    - by eapply A_in_U_of_Inv.
+    - by apply PInv_of_Inv.
+    - exists s'. split; [done|]. by apply (Inv_rm s s').
+  Qed.
+
+  Lemma remove_spenders_ok (ops : list (N * N)) (R : list N) (s : store) (F : facts) :
+    Inv U s F → (∀ u, u ∈ R ↔ ∃ op, op ∈ ops ∧ unconf_spender U F op u) →
+    ∃ s', foldl (spenders_step (rc_inner U (fuel_of U))) (Some s) ops = Some s' ∧
+          Inv U s' (rm F R).
+  Proof.
+    intros HI HR.
+    destruct (remove_spenders_PInv ops s F ∅) as (s' & A' & Hf & HP' & Hsr & HA').
+    - by eapply A_in_U_of_Inv.
+    - by apply PInv_of_Inv.
+    - exists s'. split; [done|]. apply (Inv_rm s s'); [done|done|].
+      by rewrite <- (spenders_char_rm F ops R A').
+  Qed.
+End pinv_compose.
+
+(** the clean-up loop at the end of [rollback], literally *)
+Lemma rollback_cleanup_unfold (U : gmap N tx) (fuel : nat) (s2 : store) (cbc : list (N * N)) :
+  foldl (fun (acc : option store) op =>
+           match acc with
+           | None => None
+           | Some s' =>
+             foldl (fun (acc : option store) sp =>
+               match acc with
+               | None => None
+               | Some s'' =>
+                 match unmined s'' !! sp with
+                 | None => Some s''
+                 | Some _ => remove_conflict U fuel sp s''
+                 end
+               end) (Some s') (default [] (unmined_inputs s' !! op))
+           end) (Some s2) cbc =
+  foldl (spenders_step (rc_inner U fuel)) (Some s2) cbc.
+Proof. reflexivity. Qed.
